@@ -71,7 +71,8 @@ func init() {
 		Footer:   stdFooter,
 		Rule: "one case = token count, output-channel capacity and a sequence of insert / feedback / finish / consume / freeze / stop " +
 			"operations on the real reactor (fresh Start..Stop per case); operands are chosen against the observed state " +
-			"(k-th held / tracked / finished / never inserted seed); distinct by input text; non-trivial when at least one insert was " +
+			"(k-th held / tracked / finished / never inserted seed); obj= says whether feedback / finish are issued with the inserted " +
+			"object or with another *models.Item carrying the same id; distinct by input text; non-trivial when at least one insert was " +
 			"accepted and the history contains a rejection, a blocked call, a freeze or a stop",
 		Setup:    setupReactor,
 		Gen:      genReactorSeq,
@@ -83,7 +84,16 @@ func init() {
 
 // ---------------------------------------------------------------- generator
 
+// rxObjModes: which operations on a seed are carried by a fresh *models.Item with the same id instead of
+// the object the seed was inserted with.  The reactor keys its state table by id: every answer has to
+// be the same whatever object carries the id.
+var rxObjModes = []string{"same", "same", "fresh-feedback", "fresh-finish", "both"}
+
 func genReactorSeq(r *Rng, i int, tier string) string {
+	return genReactorSeqOps(r, i, tier) + " obj=" + rxObjModes[r.Intn(len(rxObjModes))]
+}
+
+func genReactorSeqOps(r *Rng, i int, tier string) string {
 	maxLen := 36
 	if tier == "thorough" {
 		maxLen = 70
@@ -210,7 +220,11 @@ func shrinkReactorSeq(in string) []string {
 	kv := parseKV(in)
 	ops := strings.Split(kv["ops"], ",")
 	mk := func(o []string) string {
-		return fmt.Sprintf("kind=%s cap=%s ocap=%s ops=%s", kv["kind"], kv["cap"], kv["ocap"], strings.Join(o, ","))
+		base := fmt.Sprintf("kind=%s cap=%s ocap=%s ops=%s", kv["kind"], kv["cap"], kv["ocap"], strings.Join(o, ","))
+		if kv["obj"] != "" {
+			base += " obj=" + kv["obj"]
+		}
+		return base
 	}
 	var out []string
 	if len(ops) > 3 {
@@ -499,7 +513,13 @@ func execReactorSeq(in string) Result {
 	if err := reactor.Start(capN, h.out); err != nil {
 		panic("reactor.Start: " + err.Error())
 	}
-	tags := map[string]bool{"kind:" + kv["kind"]: true, fmt.Sprintf("cap:%d", capN): true, fmt.Sprintf("ocap:%d", ocap): true}
+	obj := kv["obj"]
+	if obj == "" {
+		obj = "same"
+	}
+	freshFb := obj == "fresh-feedback" || obj == "both"
+	freshFin := obj == "fresh-finish" || obj == "both"
+	tags := map[string]bool{"kind:" + kv["kind"]: true, fmt.Sprintf("cap:%d", capN): true, fmt.Sprintf("ocap:%d", ocap): true, "obj:" + obj: true}
 	var steps []string
 	accepted, interesting := 0, false
 	stopped := false
@@ -612,6 +632,11 @@ func execReactorSeq(in string) Result {
 		}
 		preTok, preIn := reactor.VerifTokensInUse(), reactor.VerifInputLen()
 		it := rxItem(h.items, id)
+		if (kind == 'B' && freshFb) || (kind == 'F' && freshFin) {
+			// another object with the same id (the handle kept in h.items stays the inserted one)
+			it = models.NewItem(strconv.Itoa(id), &models.URL{Raw: "http://seed.example/" + strconv.Itoa(id)}, "")
+			it.SetSource(models.ItemSourceQueue)
+		}
 		ch := make(chan string, 1)
 		go func() { ch <- rxCall(kind, it) }()
 		h.held = rmInt(h.held, id)
